@@ -26,7 +26,7 @@ def run(ctx):
     files = [ctx.path("mem.ndjson"), ctx.path("both.ndjson"), ctx.path("conc.ndjson")]
     ctx.harness(binary, ["-plans", pdir, "-plansr", rdir, "-out", files[0], "-both", files[1],
                          "-conc", files[2], "-seed", ctx.seed, "-hist", ctx.q(250, 4000),
-                         "-nboth", ctx.q(150, 2500), "-nconc", ctx.q(80, 1000), "-nrconc", ctx.q(80, 1000),
+                         "-nboth", ctx.q(150, 2500), "-nconc", ctx.q(80, 1000), "-nrconc", ctx.q(80, 1000), "-nrds", ctx.q(70, 1200), "-ncold", ctx.q(120, 2500),
                          "-maxops", ctx.q(60, 120)], traces=files)
     # 4. validate what the real code did
     mem = ctx.load_traces(files[0])
